@@ -341,8 +341,9 @@ def gen_sequence(rng, n):
     return script
 
 
-def run_sequence(init, script):
-    """init: dict of lists (tas, tasmin, tasmax, pr, prsn). returns problems [(description, step index)]"""
+def run_sequence(init, script, record=None):
+    """init: dict of lists (tas, tasmin, tasmax, pr, prsn). returns problems [(description, step index)].
+    record (a dict): receives the eight initial arrays and the real outputs of every call, for the driver op `seq`"""
     u = U()
     v = {k: np.array(init[k], dtype=float) for k in ("tas", "tasmin", "tasmax", "pr", "prsn")}
     # np.array(..): 0-d results of arithmetic are numpy scalars, which cannot be modified in place
@@ -350,6 +351,9 @@ def run_sequence(init, script):
     v["q"] = np.array(v["prsn"] / v["pr"])
     ids = {k: id(a) for k, a in v.items()}
     problems = []
+    if record is not None:
+        record["v0"] = {k: a.copy() for k, a in v.items()}
+        record["outs"] = []
     for n, step in enumerate(script):
         if step[0] == "mod":
             seq_mod(step, v)
@@ -364,6 +368,8 @@ def run_sequence(init, script):
             except RealRaised as rr:
                 problems.append((f"step {n} {name}: {rr.problem()[0]}", n))
                 break
+        if record is not None:
+            record["outs"].append((name, tuple(np.array(g, dtype=float, copy=True) for g in got), mag(*[before[a] for a in args])))
         for k in v:
             if not np.array_equal(v[k], before[k], equal_nan=True) or id(v[k]) != ids[k]:
                 problems.append((f"step {n} {name}: the call changed its argument '{k}'", n))
@@ -439,7 +445,7 @@ def gen_layout_case(rng, tier):
 
 
 @no_raise
-def oracle_layout(base, func, spec, bc):
+def oracle_layout(base, func, spec, bc, record=None):
     u = U()
     args, ref_v = [], {k: np.array(v, dtype=float) for k, v in base.items()}
     for a in FUNC_ARGS[func]:
@@ -456,6 +462,9 @@ def oracle_layout(base, func, spec, bc):
         warnings.simplefilter("ignore")
         out = getattr(u, func)(*args)
     got = out if isinstance(out, tuple) else (out,)
+    if record is not None:  # the values in logical order (what the model sees) and the real outputs, for the driver
+        record["args"] = [ref_v[a] for a in FUNC_ARGS[func]]
+        record["got"] = got
     problems = []
     what = f"{func}({', '.join(f'{a}: {spec[a][1]} {spec[a][0]}' + (' broadcast' if bc == a else '') for a in FUNC_ARGS[func])})"
     for a, sn in zip(args, snap):
@@ -626,7 +635,12 @@ def run(tier, res, force_search=False):
         "numpy arithmetic on arrays is element-wise and shape-preserving; x/0 yields inf/NaN (modelled as Py.divE's error \"div0\")",
         "translator option partial_div: every `/` of a translated function is Py.divE; functions without `/` are total",
     ]
-    res.assumptions = ["exact rational arithmetic: float rounding is carried by the tolerance (1e-12 relative for the round trip on the real code, 1e-9 for model vs code)",
+    res.assumptions = ["decided by the oracle on the real code only (the value-level model over exact rationals cannot exhibit them): dtype of the "
+                       "inputs / floating result of a quotient, numpy views and strides (the model states the value-level fact: "
+                       "Props.C18.storage_order2/3, map*_getD), arguments left untouched and absence of hidden caches keyed on object identity "
+                       "(the specification is Model.Convert.run, Props.C18.call_fresh / calls_do_not_change_arrays; the driver op `seq` runs the "
+                       "same scripts), logger verbosity / np.errstate / warnings filters / print options (process state), float rounding",
+                       "exact rational arithmetic: float rounding is carried by the tolerance (1e-12 relative for the round trip on the real code, 1e-9 for model vs code)",
                        "inputs are finite floats"]
 
     lean_ok = C.lean_phase(res, PROP, GEN, TARGETS)
@@ -740,7 +754,18 @@ def run(tier, res, force_search=False):
         res.count(("layout", func, tuple(sorted(spec.items())), bc, base["tas"].shape, base["tas"].tobytes()), True,
                   sample={"family": "layout", "function": func, "spec": {a: list(v) for a, v in spec.items()}, "broadcast": bc,
                           "shape": list(base["tas"].shape)} if k == 0 else None)
-        for p, d in oracle_layout(base, func, spec, bc):
+        rec = {}
+        lay_problems = oracle_layout(base, func, spec, bc, rec)
+        if not lay_problems and "got" in rec:
+            # tie of Props.C18.storage_order*/map*_getD: the model on the values in logical order = the real code on the views
+            dop = {"get_tasrange": "tasrange", "get_tasskew": "tasskew", "get_tasrange_tasskew": "rangeskew", "get_tasmin": "tasmin",
+                   "get_tasmax": "tasmax", "get_tasmin_tasmax": "tasminmax", "get_prsnratio": "prsnratio", "get_prsn": "prsn", "get_pr": "pr"}[func]
+            single = any(spec[a][1] == "float32" for a in FUNC_ARGS[func])
+            lsc = mag(*rec["args"]) * (1e4 if single else 1.0)
+            lcase = {"family": "layout", "function": func, "shape": list(base["tas"].shape)}
+            lines.append(dop + " " + " ".join(rl(a) for a in rec["args"]))
+            expect.append((dop, lcase, rec["got"] if len(rec["got"]) == 2 else rec["got"][0], lsc))
+        for p, d in lay_problems:
             problems_all.append((p, {"oracle": "layout", "family": "layout", "shape": list(base["tas"].shape), "function": func,
                                      "spec": {a: list(v) for a, v in spec.items()}, "broadcast": bc,
                                      "base": {a: np.asarray(v).tolist() for a, v in base.items()}, "detail": d}))
@@ -758,7 +783,15 @@ def run(tier, res, force_search=False):
         res.count(("seq", tas.shape, tuple(map(str, script)), tas.tobytes()), True,
                   sample={"family": "sequence", "shape": list(tas.shape), "script": [list(x) for x in script][:6]} if k == 0 else None)
         res.extra["sequence_steps"] = res.extra.get("sequence_steps", 0) + len(script)
-        for p, nstep in run_sequence(init, script):
+        rec = {}
+        seq_problems = run_sequence(init, script, rec)
+        if not seq_problems and rec.get("outs"):
+            # tie of Model.Convert.run (Props.C18.call_fresh): the same script through the driver
+            v0 = rec["v0"]
+            stxt = ";".join(("c." + st[1]) if st[0] == "call" else f"m.{st[1]}.{C.rat(st[2])}" for st in script)
+            lines.append("seq " + " ".join(rl(v0[a]) for a in ("tas", "tasmin", "tasmax", "r", "s", "pr", "prsn", "q")) + " " + stxt)
+            expect.append(("seq", {"family": "sequence", "shape": list(tas.shape), "script": stxt[:200]}, rec["outs"], 0.0))
+        for p, nstep in seq_problems:
             problems_all.append((p, {"oracle": "sequence", "family": "sequence", "shape": list(tas.shape), "init": init,
                                      "script": [list(x) for x in script[:nstep + 1]], "detail": {"step": nstep}}))
 
@@ -776,7 +809,20 @@ def run(tier, res, force_search=False):
         out = C.run_driver("DrvConvert", lines)
         for (op, case, impl, scale), got in zip(expect, out):
             res.cov["traces_validated_against_impl"] += 1
-            if op in ("rangeskew", "tasminmax"):
+            if op == "seq":
+                calls_ = got.split("|")
+                why = None if len(calls_) == len(impl) else f"driver returned {len(calls_)} calls for {len(impl)}"
+                for (fname, outs_, sc_), txt in zip(impl, calls_):
+                    if why:
+                        break
+                    parts = txt.split(";")
+                    if len(parts) != len(outs_):
+                        why = f"{fname}: {len(parts)} outputs in the model, {len(outs_)} in the real code"
+                    for o_, p_ in zip(outs_, parts):
+                        why = why or cmp_vals(o_, p_, sc_ * 1e3)  # in-place float modifications round at every step
+                    if why:
+                        why = f"{fname}: {why}"
+            elif op in ("rangeskew", "tasminmax"):
                 parts = got.split(";")
                 if len(parts) != 2:
                     why = "driver: " + got[:80]
